@@ -120,6 +120,8 @@ def _snapshot_library_state():
                 snap[(m.__name__, attr)] = (val, _snap_nested(val))
             elif val is None or isinstance(val, (int, float, str, bool, tuple, bytes)):
                 snap[(m.__name__, attr)] = ('plain', val)
+            elif type(val).__module__ == 'numpy' and type(val).__name__ == 'ndarray' and val.size <= 200000:
+                snap[(m.__name__, attr)] = ('array', val, val.copy())       # module-level lookup tables
     # mutable default arguments of the library's functions and methods (a list/dict/set default is shared between calls)
     defaults = []
     import types
@@ -129,10 +131,12 @@ def _snapshot_library_state():
             if isinstance(val, types.FunctionType) and val.__module__ == m.__name__:
                 fns.append(val)
             elif isinstance(val, type) and val.__module__ == m.__name__:
-                for v2 in list(vars(val).values()):
+                for a2, v2 in list(vars(val).items()):
                     f = getattr(v2, '__func__', v2)
                     if isinstance(f, types.FunctionType):
                         fns.append(f)
+                    elif type(v2) in (dict, list, set) and not a2.startswith('__'):
+                        defaults.append((v2, _snap_nested(v2)))      # class-level containers are shared by all instances
         for f in fns:
             for d in list(f.__defaults__ or ()) + list((f.__kwdefaults__ or {}).values()):
                 if type(d) in (dict, list, set):
@@ -160,6 +164,16 @@ def _reset_library_state():
                         setattr(m, attr, _PRISTINE[key0][1])
                     except Exception:
                         pass
+                continue
+            if key0 in _PRISTINE and _PRISTINE[key0][0] == 'array' and not attr.startswith('__'):
+                _, orig, content = _PRISTINE[key0]
+                try:
+                    if orig.shape == content.shape and orig.flags.writeable:
+                        orig[...] = content
+                    if val is not orig:
+                        setattr(m, attr, orig if orig.shape == content.shape else content.copy())
+                except Exception:
+                    pass
                 continue
             cc = getattr(val, 'cache_clear', None)
             if callable(cc):
